@@ -5,18 +5,21 @@ use std::path::Path;
 
 #[derive(Clone, Copy, PartialEq, Eq, Debug, PartialOrd, Ord)]
 pub enum Key {
+    /// test_assets/secret_key.asc: its signatures make the signature data section a multiple of 8 bytes
+    Rsa2048,
     Rsa4096,
     Rsa3072Protected,
     Ed25519,
     EcdsaP256,
 }
 
-pub const ALL_KEYS: [Key; 4] = [Key::Rsa4096, Key::Rsa3072Protected, Key::Ed25519, Key::EcdsaP256];
-pub const FAST_KEYS: [Key; 3] = [Key::Rsa4096, Key::Ed25519, Key::EcdsaP256];
+pub const ALL_KEYS: [Key; 5] = [Key::Rsa2048, Key::Rsa4096, Key::Rsa3072Protected, Key::Ed25519, Key::EcdsaP256];
+pub const FAST_KEYS: [Key; 4] = [Key::Rsa2048, Key::Rsa4096, Key::Ed25519, Key::EcdsaP256];
 
 impl Key {
     pub fn name(&self) -> &'static str {
         match self {
+            Key::Rsa2048 => "rsa2048",
             Key::Rsa4096 => "rsa4096",
             Key::Rsa3072Protected => "rsa3072-protected",
             Key::Ed25519 => "ed25519",
@@ -25,6 +28,7 @@ impl Key {
     }
     fn files(&self) -> (&'static str, &'static str) {
         match self {
+            Key::Rsa2048 => ("../../../test_assets/secret_key.asc", "../../../test_assets/public_key.asc"),
             Key::Rsa4096 => ("secret_rsa4096.asc", "public_rsa4096.asc"),
             Key::Rsa3072Protected => ("secret_rsa3072_protected.asc", "public_rsa3072_protected.asc"),
             Key::Ed25519 => ("secret_ed25519.asc", "public_ed25519.asc"),
